@@ -231,7 +231,7 @@ def collinear_quadratic_length_is_finite(c, axis):
     c.ensures('close-to-the-chord-sum-of-a-fine-subdivision', math.isfinite(L) and abs(L - ch) <= 5e-3 * max(ch, 1e-9) + 1e-9 * sc)
 
 
-@contract('C06', 'path.QuadraticBezier.length', params=[{'_no_bounded': True}], budget=240,
+@contract('C06', 'path.QuadraticBezier.length', params=[{'_no_bounded': True}], budget=240, tier='thorough',
           note='differential contract: d/dt1 of the executed closed form is the speed |B\'(t1)| and the closed form vanishes for t1 == t0; '
                'that these two facts characterise the arc length is the fundamental theorem of calculus (assumed)')
 def quadratic_length_closed_form_is_an_antiderivative_of_the_speed(c):
